@@ -1,6 +1,7 @@
 import Driver.LruDrv
 import Driver.BlobDrv
 import Driver.DiskDrv
+import Driver.AuthDrv
 /-!
 Line-protocol driver over the executable models (DESIGN.md Appendix B).
 One operation per input line, one result line per operation.  Core Lean only, so that it links
@@ -25,6 +26,10 @@ def dispatch (s : DState) (line : String) : DState × String :=
     else if t.startsWith "disk." then
       match diskStep s.disk toks with
       | some (d, out) => ({ s with disk := d }, out)
+      | none => (s, "bad-op")
+    else if t.startsWith "auth." then
+      match authStep toks with
+      | some out => (s, out)
       | none => (s, "bad-op")
     else if t.startsWith "blob." then
       match blobStep toks with
